@@ -4,6 +4,7 @@ import (
 	"fmt"
 	"go/token"
 	"go/types"
+	"os"
 	"regexp"
 	"sort"
 	"strings"
@@ -231,6 +232,11 @@ func ruleR06_3(w *World, r *Report) {
 	for _, x := range d.calls("UpdateDatatype") {
 		if _, ok := x.in.(*ssa.Call); ok {
 			upd = x
+		}
+	}
+	if os.Getenv("VERIF_DEBUG_R063") != "" {
+		for _, n := range d.nodes {
+			fmt.Fprintf(os.Stderr, "R06.3 node %s depth %d\n", fnName(n.fn), n.depth)
 		}
 	}
 	if ins.in == nil || upd.in == nil {
